@@ -153,3 +153,22 @@ func (e *Environment) GetLocal() map[string]interface{} {
 	}
 	return result
 }
+
+// Snapshot copies the chain of scopes from e up to, but not including, stop.
+// Scopes from stop upwards (typically the interpreter's global scope, which is
+// only written while a module loads) stay shared. The copy lets another
+// goroutine read the bindings visible at this moment while this goroutine goes
+// on declaring and assigning variables: Go maps tolerate no concurrent write.
+func (e *Environment) Snapshot(stop *Environment) *Environment {
+	if e == nil || e == stop {
+		return e
+	}
+	cp := &Environment{
+		vars:   make(map[string]binding, len(e.vars)),
+		parent: e.parent.Snapshot(stop),
+	}
+	for name, b := range e.vars {
+		cp.vars[name] = b
+	}
+	return cp
+}
